@@ -657,6 +657,33 @@ Proof.
 Qed.
 
 (* a field type built from the alternatives of j5.schema.v1.Field *)
+(* ---------- flattened object fields ------------------------------------------------------- *)
+(* no field of any schema is a flattened object field: the client properties are the properties *)
+Definition flat_free (g : env) : Prop :=
+  forall ks, In ks g -> forall p, In p (schema_props (snd ks)) -> is_flat (p_ty p) = None.
+
+Lemma client_props_noflat g : forall fuel ps, (fuel <> 0)%nat -> (forall p, In p ps -> is_flat (p_ty p) = None) ->
+  client_props fuel g ps = Some ps.
+Proof.
+  intros fuel ps Hf. destruct fuel as [|f]; [contradiction|]. clear Hf. cbn [client_props].
+  induction ps as [|p r IH]; intro H; [reflexivity|]. cbn [fold_right].
+  rewrite IH by (intros q Hq; apply H; right; exact Hq). rewrite (H p (or_introl eq_refl)). reflexivity.
+Qed.
+
+Lemma client_env_of_noflat g : forall l, (forall ks, In ks l -> forall p, In p (schema_props (snd ks)) -> is_flat (p_ty p) = None) ->
+  client_env_of g l = Some l.
+Proof.
+  induction l as [|[k s] r IH]; intro H; [reflexivity|]. cbn [client_env_of].
+  rewrite IH by (intros ks Hks; apply H; right; exact Hks).
+  assert (Es : client_schema g s = Some s).
+  { destruct s as [ps|ps|]; cbn [client_schema]; try reflexivity.
+    rewrite client_props_noflat; [reflexivity|discriminate|]. intros p Hp. exact (H (k, SObject ps) (or_introl eq_refl) p Hp). }
+  rewrite Es. reflexivity.
+Qed.
+
+Lemma cenv_noflat g : flat_free g -> cenv g = g /\ client_env g = Some g.
+Proof. intro H. unfold cenv, client_env. rewrite (client_env_of_noflat g g H). split; reflexivity. Qed.
+
 Definition wf_ty (t : fty) : Prop := convert_ok SwaggerGen.field_alternatives t = true.
 Definition wf_props (ps : list prop) : Prop := Forall (fun p => wf_ty (p_ty p)) ps.
 
@@ -926,6 +953,7 @@ Definition valid_package (P : decl_package) : Prop :=
   (* every reference is to a declared schema, every field type is a Field alternative *)
   /\ all_refs_link (im_schemas (compile_image P)) = true
   /\ wf_env (im_schemas (compile_image P))
-  (* declared schema names are not those of request/response messages *)
-  /\ (forall k, In k (map fst (dp_schemas P)) -> fst k <> dp_pkg P ++ DOT :: SERVICE).
+  (* no flattened object fields (the client's merging of flattened objects is modelled and tied, but is not
+     part of this theorem) *)
+  /\ flat_free (im_schemas (compile_image P)).
 End Package.
